@@ -193,6 +193,9 @@ type Peer struct {
 	Got    []Frame
 	EOF    bool
 	nextID uint32
+	// Gate, when set, holds the draining thread back before each further
+	// frame until it is closed (a peer that stops reading for a while).
+	Gate chan struct{}
 }
 
 // RawPeer dials the server without authenticating.
@@ -220,6 +223,9 @@ func (p *Peer) NextID() uint32 { p.nextID += 2; return p.nextID }
 func (p *Peer) StartDrain() {
 	vrt.GoNamed("peer-drain", func() {
 		for {
+			if g := p.Gate; g != nil {
+				<-g
+			}
 			var m net.Message
 			if err := m.Read(p.Raw); err != nil {
 				p.EOF = true
